@@ -7,7 +7,7 @@ from engine.cond import CondCtx, satisfiable
 from engine.defuse import defuse_of, attr_accesses
 from engine.names import unresolved_names, possibly_unbound
 from engine.fold import UNKNOWN, EnumVal
-from .common import calls_named, package_calls, node_lits, enum_lit, resolve_arg
+from .common import calls_named, package_calls, node_lits, enum_lit, resolve_arg, is_snapshot_of
 from .capacity import capacity, MTUS
 
 EXPLANATION = (
@@ -308,7 +308,7 @@ def _timeout_loop(ctx, fi, rule):
         return
     c = ht[0]
     loop = [p for p in _parents(c, fi.node) if isinstance(p, ast.For)]
-    ok = bool(loop) and norm(loop[0].iter) == "list(self.pending_acks)" and norm(c.args[0]) == norm(loop[0].target)
+    ok = bool(loop) and is_snapshot_of(loop[0].iter, "self.pending_acks") and norm(c.args[0]) == norm(loop[0].target)
     ctx.check(ok, rule, fi, "sweep iterates a snapshot of pending_acks", "for seqnum in list(self.pending_acks): ... _handle_timeout(seqnum)", line=c.lineno)
     ifs = [p for p in _parents(c, fi.node) if isinstance(p, ast.If)]
     t = ifs[0].test if ifs else None
@@ -417,7 +417,12 @@ def r7(ctx, RULE="C05.R7"):
         # a discard that is not dominated by the delivery of that context: is it at least restricted to complete / finished contexts?
         conds = [(norm(t), p) for (t, p) in cfg.conditions_of(d.id)]
         guarded = any(("isComplete()" in t and p) for (t, p) in conds)
-        ctx.check(guarded, RULE, fi, d.ast, "a reassembly context is discarded only after its message was delivered",
+        # (the construct is named independently of the sweep's loop variable: `for key in expired: del ...[key]`)
+        tgt = d.ast.targets[0]
+        swept = isinstance(tgt, ast.Subscript) and isinstance(tgt.slice, ast.Name) and any(
+            isinstance(p_, ast.For) and any(isinstance(x, ast.Name) and x.id == tgt.slice.id for x in ast.walk(p_.target)) for p_ in _parents(d.ast, fi.node))
+        label = "del self.received_fragments[key]" if swept else d.ast
+        ctx.check(guarded, RULE, fi, label, "a reassembly context is discarded only after its message was delivered",
                   witness={"path": "expired() -> del received_fragments[key] without isComplete()/delivery: a guaranteed fragmented message whose fragments "
                                    "take longer than 1.0 + 0.5*count seconds (for example one fragment lost twice) is purged when any other fragment arrives; "
                                    "the late fragment then opens a fresh context that can never complete, the sender still sees every fragment acked"},
